@@ -69,10 +69,8 @@ pub fn alphabet(thorough: bool) -> Vec<Op> {
     if thorough {
         v.extend([
             Op::Alloc(Ty::U64, 16), // same bytes as a pooled f32 buffer, different alignment
-            Op::Alloc(Ty::B4, 40),
             Op::Alloc(Ty::F32, 31), // below the threshold: bypasses the pool
             Op::Alloc(Ty::U8, 160), // different element size
-            Op::AddFresh(Ty::F32, 8), // below threshold: dropped, not pooled
             Op::PoolRefDrop(40),
             Op::AddFresh(Ty::U64, 16),
         ]);
